@@ -19,7 +19,7 @@ from specs import c05, c08, c10, c12, c17, c18, c04
 from specs.inotify_read import IRWorld, Close as InoClose, ReadEvents
 
 PROP = "C06"
-GROUNDABLE = False
+GROUNDABLE = True
 BATTERY = "c06_battery.py"
 UTILS = "watchdog/utils/__init__.py"
 API = "watchdog/observers/api.py"
